@@ -172,6 +172,22 @@ AllGapIsCertain ==
 
 Bounds == \A k \in 1..Len(rds) : ReadNum(rds[k][1], G, A) \in 0..Den
 
+(* a locus extended by SNVs at which the read has no call (and every haplotype carries a    *)
+(* listed allele) has the same likelihood: however long the locus, at either end             *)
+PaddingInvariant ==
+  \A k \in 1..Len(rds) :
+    LET c == rds[k][1] IN
+    /\ ReadNum(c \o <<Gap>>, [h \in 1..sh.P |-> G[h] \o <<0>>], A \o <<2>>) = CellDen * ReadNum(c, G, A)
+    /\ ReadNum(<<Gap, Gap>> \o c, [h \in 1..sh.P |-> <<1, 0>> \o G[h]], <<2, 2>> \o A) = CellDen * CellDen * ReadNum(c, G, A)
+
+(* the mixture depends on the proportions of the haplotypes only: a pool of r copies of the  *)
+(* genotype (ploidy r P) has the same likelihood as the genotype itself                      *)
+Pooled(GG, r) == [h \in 1..(r * Len(GG)) |-> GG[((h - 1) % Len(GG)) + 1]]
+PoolingInvariant ==
+  \A r \in {2, 3, 5} : \A k \in 1..Len(rds) :
+    /\ ReadNum(rds[k][1], Pooled(G, r), A) = r * ReadNum(rds[k][1], G, A)
+    /\ ReadDen(r * sh.P, sh.N) = r * Den
+
 (* a haplotype carrying a zero-probability non-allele contributes nothing     *)
 RECURSIVE SumValid(_, _)
 SumValid(cells, h) == IF h = 0 THEN 0
